@@ -169,6 +169,51 @@ theorem brace_numseq_head (s e i : Int) : ∃ rest, numSeq s e i = s :: rest := 
   · rename_i h; exact ⟨_, ascFrom_head s e _ (stepOf_pos i) h⟩
   · exact ⟨_, rfl⟩
 
+/-- a sequence never holds more words than the count the parser computes for it
+(`|end - start| / step + 1`) … -/
+theorem brace_numseq_length_le_count (s e i : Int) :
+    (numSeq s e i).length ≤ seqCount s e i := by
+  have hpos := stepOf_pos i
+  unfold numSeq seqCount
+  have key : ∀ (k d step : Nat), 0 < step → ((k : Int) * step ≤ d) → k ≤ d / step := by
+    intro k d step hs h
+    rw [Nat.le_div_iff_mul_le hs]
+    have : ((k * step : Nat) : Int) ≤ d := by rw [Int.natCast_mul]; exact h
+    exact Int.ofNat_le.mp this
+  split
+  · rename_i hse
+    have h := ascFrom_length s e (stepOf i) hpos
+    cases hL : (ascFrom s e (stepOf i)).length with
+    | zero => exact Nat.zero_le _
+    | succ k =>
+      rw [hL] at h
+      have hk : (k : Int) * (stepOf i) ≤ ((e - s).natAbs : Nat) := by
+        rw [Int.natCast_add, Int.natCast_one, Int.add_mul, Int.one_mul] at h
+        omega
+      have := key k _ _ hpos hk
+      omega
+  · rename_i hse
+    have h := descFrom_length s e (stepOf i)
+    simp only [List.length_cons]
+    have hk : ((descFrom s e (stepOf i)).length : Int) * (stepOf i) ≤ ((e - s).natAbs : Nat) := by omega
+    have := key _ _ _ hpos hk
+    omega
+
+/-- … so a sequence the parser accepts (count at most `INT_MAX - 2`) is bounded in size; a larger one
+is not expanded at all (the word stays literal, as in bash) — formerly `echo {1..99999999999}`
+materialised every element until the process aborted -/
+theorem brace_numseq_accepted_is_bounded (s e i : Int) (h : seqAccepted s e i = true) :
+    (numSeq s e i).length ≤ 2147483645 := by
+  have := brace_numseq_length_le_count s e i
+  unfold seqAccepted SEQ_LIMIT at h
+  simp only [decide_eq_true_eq] at h
+  omega
+
+example : seqAccepted 1 99999999999 1 = false := by decide
+example : seqAccepted 1 2147483645 1 = true := by decide
+example : seqAccepted 1 2147483646 1 = false := by decide
+example : seqAccepted 1 9223372036854775807 4611686018427387904 = true := by decide
+
 /-- the former panic witness `{0..-9223372036854775807..9223372036854775807}` now gives bash's answer -/
 theorem brace_numseq_former_cex :
     numSeq 0 (-9223372036854775807) 9223372036854775807 = [0, -9223372036854775807] := by
